@@ -53,8 +53,11 @@ def evenlist(lo, hi):
     return st.lists(st.one_of(intv, intv, st.integers(-4000, 4000).map(lambda k: k / 4)), min_size=lo, max_size=hi).map(lambda l: sorted(l)[: len(l) // 2 * 2])
 
 
+# style names that differ from the four style-map styles only in case: the typographic names (IDs 16/17) are dropped only when they equal IDs 1/2 exactly
+stylename = st.one_of(nametext, nametext, st.sampled_from(["Regular", "regular", "BOLD", "Bold", "italic", "Italic", "ITALIC", "Bold Italic", "bold italic", "Bold ITALIC", "BOLD ITALIC", "bOLD"]))
+
 ATTRS = {
-    "familyName": nametext, "styleName": nametext, "styleMapFamilyName": text, "styleMapStyleName": st.sampled_from(["regular", "bold", "italic", "bold italic"]),
+    "familyName": nametext, "styleName": stylename, "styleMapFamilyName": text, "styleMapStyleName": st.sampled_from(["regular", "bold", "italic", "bold italic"]),
     "versionMajor": st.integers(0, 200), "versionMinor": st.one_of(st.integers(0, 999), st.integers(0, 999), st.sampled_from([1000, 1234, 20000])), "copyright": text, "trademark": text,
     "unitsPerEm": st.sampled_from([16, 1000, 1024, 2048, 16384, 1000.0]), "descender": num, "xHeight": num, "capHeight": num, "ascender": num,
     "italicAngle": st.one_of(st.integers(-30, 30), st.floats(-45, 45).map(lambda v: round(v, 2))),
@@ -62,7 +65,7 @@ ATTRS = {
     "openTypeHeadLowestRecPPEM": st.integers(0, 100), "openTypeHeadFlags": bits(14),
     "openTypeHheaAscender": intv, "openTypeHheaDescender": intv, "openTypeHheaLineGap": intv, "openTypeHheaCaretSlopeRise": intv, "openTypeHheaCaretSlopeRun": intv, "openTypeHheaCaretOffset": intv,
     "openTypeNameDesigner": text, "openTypeNameDesignerURL": text, "openTypeNameManufacturer": text, "openTypeNameManufacturerURL": text, "openTypeNameLicense": text, "openTypeNameLicenseURL": text,
-    "openTypeNameVersion": st.one_of(text, st.sampled_from(["Version 1.000", "release 7", "Version snapshot 2.1", "no. 12", "1.5 Version 2", "version 3", "Versionen 2", " 1"])), "openTypeNameUniqueID": text, "openTypeNameDescription": text, "openTypeNamePreferredFamilyName": nametext, "openTypeNamePreferredSubfamilyName": nametext,
+    "openTypeNameVersion": st.one_of(text, st.sampled_from(["Version 1.000", "release 7", "Version snapshot 2.1", "no. 12", "1.5 Version 2", "version 3", "Versionen 2", " 1"])), "openTypeNameUniqueID": text, "openTypeNameDescription": text, "openTypeNamePreferredFamilyName": nametext, "openTypeNamePreferredSubfamilyName": stylename,
     "openTypeNameCompatibleFullName": text, "openTypeNameSampleText": text, "openTypeNameWWSFamilyName": text, "openTypeNameWWSSubfamilyName": text,
     "openTypeNameRecords": st.lists(st.fixed_dictionaries({"nameID": st.integers(0, 300), "platformID": st.just(3), "encodingID": st.just(1), "languageID": st.sampled_from([0x409, 0x407]), "string": text}), max_size=2),
     "openTypeOS2WidthClass": st.integers(1, 9), "openTypeOS2WeightClass": st.integers(1, 1000), "openTypeOS2Selection": st.lists(st.sampled_from([1, 2, 3, 4, 7, 8, 9]), unique=True, max_size=3).map(sorted),
